@@ -9,7 +9,7 @@ from vlib import gen, harness, opcheck, tol
 from vlib.runner import Violation
 
 ID = "C05"
-BUDGET = {"quick": 1600, "thorough": 30000}
+BUDGET = {"quick": 1600, "thorough": 80000}
 RULE = ("Generated: smooth&decomposable DAGs over polynomial inputs only (degree 0..3, real or complex "
         "coefficients), any nesting, Hadamard/Kronecker products of arity 2..3, n-ary sums, 1..5 variables "
         "always renumbered into 0..24 (non-contiguous, ids >= 8), 1..3 outputs, order k in 1..3; also "
